@@ -22,7 +22,9 @@
 #include <rime/dict/vocabulary.h>
 #include <rime/gear/charset_filter.h>
 #include <rime/gear/echo_translator.h>
+#include <rime/gear/simplifier.h>
 #include <rime/gear/single_char_filter.h>
+#include <rime/config.h>
 #include <rime/gear/translator_commons.h>
 #include <rime/gear/uniquifier.h>
 #include <iostream>
@@ -120,7 +122,7 @@ static std::string item(size_t idx, const std::string& text, const std::string& 
 static std::string item_full(size_t idx, const an<Candidate>& c) {
   auto u = As<UniquifiedCandidate>(c);
   return item(idx, c->text(), c->comment()) + ":" + std::to_string(type_no(c)) + ":" +
-         std::to_string(long(c->quality())) + ":" + std::to_string(u ? u->items().size() : 0);
+         std::to_string(long(c->quality())) + ":" + std::to_string(u ? u->items().size() : (As<ShadowCandidate>(c) ? 1 : 0));
 }
 
 struct Builder {
@@ -187,6 +189,31 @@ static int unit_mode(const std::string& work) {
   Uniquifier uniq{Ticket()};
   SingleCharFilter single{Ticket()};
   CharsetFilter charset{Ticket(engine.get(), "", "charset_filter")};
+  // the real Simplifier (real OpenCC) over the two generated text dictionaries <work>/opencc/fake_{a,b}.json
+  SimplifierComponent simp_component;
+  the<Simplifier> simp_a, simp_b;
+  {
+    std::ifstream fa(work + "/opencc/fake_a.json");
+    if (fa.good()) {
+      engine->schema()->config()->SetString("simp_a/opencc_config", work + "/opencc/fake_a.json");
+      engine->schema()->config()->SetString("simp_b/opencc_config", work + "/opencc/fake_b.json");
+      engine->context()->set_option("simplification", true);
+      simp_a.reset(simp_component.Create(Ticket(engine.get(), "filter", "simplifier@simp_a")));
+      simp_b.reset(simp_component.Create(Ticket(engine.get(), "filter", "simplifier@simp_b")));
+      if (!simp_a || !simp_b) { fprintf(stderr, "cannot create the simplifiers\n"); return 5; }
+    }
+  }
+  auto add_filters = [&](an<Menu>& m, const std::string& fs) -> bool {
+    for (char ch : fs) {
+      if (ch == 'u') m->AddFilter(&uniq);
+      else if (ch == 's') m->AddFilter(&single);
+      else if (ch == 'x') m->AddFilter(&charset);
+      else if (ch == 'a' && simp_a) m->AddFilter(simp_a.get());
+      else if (ch == 'b' && simp_b) m->AddFilter(simp_b.get());
+      else if (ch != '-') return false;
+    }
+    return true;
+  };
   Builder b;
   std::string line;
   while (std::getline(std::cin, line)) {
@@ -200,11 +227,7 @@ static int unit_mode(const std::string& work) {
     auto menu = New<Menu>();
     for (long i = 0; i < nt; ++i) menu->AddTranslation(b.spec(tk));
     std::string fs = tk.next();
-    for (char ch : fs) {
-      if (ch == 'u') menu->AddFilter(&uniq);
-      if (ch == 's') menu->AddFilter(&single);
-      if (ch == 'x') menu->AddFilter(&charset);
-    }
+    if (!add_filters(menu, fs)) tk.ok = false;
     if (!tk.ok) { std::cout << "BADLINE spec\n"; continue; }
     // a composing state whose last segment carries the synthetic menu
     api->clear_composition(sid);
@@ -283,11 +306,7 @@ static int unit_mode(const std::string& work) {
       long n2 = t2.num();
       auto fresh = New<Menu>();
       for (long i = 0; i < n2; ++i) fresh->AddTranslation(b.spec(t2));
-      for (char ch : t2.next()) {
-        if (ch == 'u') fresh->AddFilter(&uniq);
-        if (ch == 's') fresh->AddFilter(&single);
-        if (ch == 'x') fresh->AddFilter(&charset);
-      }
+      add_filters(fresh, t2.next());
       out += "L";
       std::vector<std::string> seen;
       bool nodup = true;
@@ -303,6 +322,8 @@ static int unit_mode(const std::string& work) {
     std::cout << out << "\n";
   }
   for (auto& kv : sessions) api->destroy_session(kv.second);
+  simp_a.reset();
+  simp_b.reset();
   engine.reset();
   env.stop();
   return 0;
